@@ -204,8 +204,13 @@ def _alpha(P, R):
     for name in (AMI + "::filter", AMI + "::filter_tracked"):
         fn = P.one(name)
         lookups = [c for c in fn.calls() if c.name.endswith("HashMap::get") and "indexes" in fmt_sym(fn.sym_operand(c.args[0]), maxdepth=8) and c.bb in fn.normal_blocks()]
+        rs_ = A.returned_syms(fn)
+        deleg = len(rs_) == 1 and strip(rs_[0][1])[0] == "call" and strip(rs_[0][1])[1] == AMI + "::filter" and name != AMI + "::filter" \
+            and [strip(a_)[:2] for a_ in strip(rs_[0][1])[2]] == [("param", 1), ("param", 2), ("param", 3)]
         if len(lookups) >= 2 or (lookups and any(c.name.endswith("HashMap::get") for c in fn.calls())):
             R.hold("b", "%s: index consulted by field, then by key" % fn.short_name, fn=fn)
+        elif deleg:
+            R.hold("b", "%s returns filter(field, value) itself (the tracked twin delegates to the plain one)" % fn.short_name, fn=fn)
         else:
             R.violate("b", "filter:lookup:%s" % fn.short_name, "%s does not look the key up in the field's index" % fn.short_name, fn)
 
